@@ -743,7 +743,8 @@ func (e *Exec) call(caller *frame, fn Value, args []Value) Value {
 
 func (e *Exec) callFunction(caller *frame, fn *ssa.Function, args []Value, env []Value) Value {
 	// harness-declared stubs
-	if st, ok := e.eng.stubs[fn]; ok {
+	if st, ok := e.eng.stubs[fn]; ok && !(caller != nil && caller.fn == st) {
+		// (a stub may call the function it replaces: that call reaches the original)
 		fn = st
 	}
 	name := fn.String()
